@@ -304,6 +304,67 @@ let kvhist (type v) (cfg : v cfg) (rn : v runner) (vacuum_prog : (z list -> v ha
   done;
   if cfg.c_mode = z_of_small 2 && not !any_fault then (pr ";"; pr_z !conflicts)
 
+(* ---------- scheduled concurrency (L1, C03) ----------
+   Names are the model's own: the k-th distinct object PUT gets name k (hashing happens together
+   with the PUT that follows it), which the harness computes from its global request log. *)
+let rec nat_of_int' n = if n <= 0 then O else S (nat_of_int' (n - 1))
+let schedhist () : unit =
+  let _mode = next () in
+  let bf = rd_z () in
+  let cfg = cfg_plain Z0 bf in
+  let b = ref (empty_bucket : z bucket) in
+  let runq : 'a. (z, 'a) prog -> 'a result = fun p ->
+    let ((b', r), _) = run_plain big_fuel [] None !b p in b := b'; r in
+  (* setup: nsetup writers open the empty bucket, then each sets its key and commits;
+     optionally one more client opens read-write afterwards (merging them) *)
+  let nsetup = rd_int () in
+  let setup = Stdlib.List.init nsetup (fun _ -> let k = rd_z () in let v = rd_z () in let w = rd_z () in (k, v, w)) in
+  let t0 = z_of_string "1700000000000000000" in
+  let hs = Stdlib.List.map (fun _ -> match runq (open0 cfg false None t0 [] []) with Done h -> h | _ -> failwith "setup_open") setup in
+  Stdlib.List.iter2 (fun (k, v, w) h ->
+    match kv_set cfg h w (VInt k) v with
+    | Some h' -> (match runq (commit [] h') with Done (_, COk _) -> () | _ -> failwith "setup_commit")
+    | None -> failwith "setup_set") setup hs;
+  let merge_setup = rd_bool () in
+  if merge_setup then begin
+    let order = rd_list rd_z in let corder = rd_list rd_z in
+    match runq (open0 cfg false None t0 order corder) with Done _ -> () | _ -> failwith "setup_merge"
+  end;
+  (* clients *)
+  let dumpt t = Stdlib.List.map (fun (k, (c : z cval)) -> (k, c.md, c.payload)) t in
+  let dump (h : z handle) = dumpt (kv_dump h) in
+  let nclients = rd_int () in
+  let progs = Stdlib.List.init nclients (fun _ ->
+    let kind = next () in
+    let k = rd_z () in let v = rd_z () in let w = rd_z () in let ow = rd_z () in
+    let order = rd_list rd_z in let corder = rd_list rd_z in
+    match kind with
+    | "R" -> client_reader cfg ow order
+    | "M" -> client_merger cfg ow order corder
+    | "W" -> client_writer cfg ow order corder w (VInt k) v
+    | s -> failwith ("bad_client_kind_" ^ s)) in
+  let sched = Stdlib.List.map nat_of_int' (rd_list rd_int) in
+  let ((b', progs'), log) = sched_run obj_eqb_plain progs sched !b Z0 [] in
+  b := b';
+  let rec int_of_nat = function O -> 0 | S n -> 1 + int_of_nat n in
+  Stdlib.List.iteri (fun i p ->
+    pr ";"; pr ("C" ^ string_of_int i);
+    let mine = Stdlib.List.filter (fun ((_, c), _) -> int_of_nat c = i) log in
+    let steps = Stdlib.List.map (fun ((s, _), _) -> int_of_z s) mine in
+    let st = Stdlib.List.fold_left min max_int steps and en = Stdlib.List.fold_left max (-1) steps in
+    (match p with
+     | Ret d -> pr "ok"; pr (string_of_int st); pr (string_of_int en);
+                pr_list (fun (k, md, v) -> pr_sval k; pr_z md; pr_opt pr_z v) (dumpt d)
+     | Fail _ -> pr "err"; pr (string_of_int st); pr (string_of_int en)
+     | Do (_, _) -> pr "unfinished")) progs';
+  pr ";"; pr "cur"; pr_list pr_z (o_names !b.b_cur);
+  pr ";"; pr "mrg"; pr_list pr_z (o_names !b.b_merged);
+  (* a fresh reader afterwards *)
+  pr ";"; pr "F";
+  (match runq (open0 cfg true None t0 [] []) with
+   | Done h -> pr "ok"; pr_list (fun (k, md, v) -> pr_sval k; pr_z md; pr_opt pr_z v) (dump h)
+   | _ -> pr "err")
+
 (* ---------- SQL histories (L2) ---------- *)
 let z_mul_int (x : z) (n : int) = Z.mul x (z_of_small n)
 let nanos_of_sec (s : z) : z = Z.mul s (z_of_string "1000000000")
@@ -591,6 +652,7 @@ let run_case (fn : string) : unit =
              (fun _ v -> pr_opt pr_z v)
        | _ -> failwith "bad_mode")
   | "sqlhist" -> sqlhist ()
+  | "schedhist" -> schedhist ()
   | _ -> failwith ("unknown_fn_" ^ fn)
 
 let () =
